@@ -16,7 +16,7 @@ class C13(Prop):
                 "M17.C13A.ainv_step", "M17.C13A.plan_audio", "M17.C13A.plan_eq_specPlan",
                 "M17.C13T.encodeBytes_eq", "M17.C13T.punct_eq_spec", "M17.C13T.ileave_eq_spec", "M17.C13T.randBits_eq_spec", "M17.C13T.packBits_eq_spec",
                 "M17.C13T.lsfBytes_eq_spec", "M17.C13T.sendLsf_eq_spec", "M17.C13T.lichSegment_eq_spec", "M17.C13T.streamFrame_eq_spec",
-                "M17.C13T.m17mod_lsf_decodes", "M17.C13T.m17mod_stream_decodes"]
+                "M17.C13T.m17mod_lsf_decodes", "M17.C13T.m17mod_stream_decodes", "M17.C13T.bertFrame_eq_spec"]
     level_text = ("Lean 4 theorems: for EVERY audio length the modelled transmit() loop sends ceil(len/320)+1 stream frames numbered k mod 0x8000 "
                   "with LICH fragment k mod 6, the last one carrying the end-of-stream bit and the all-zero block (loop invariant by induction "
                   "over the samples); plan_audio / plan_eq_specPlan: every frame carries exactly its 320-sample window of the input, the partial last "
@@ -25,7 +25,8 @@ class C13(Prop):
                   "make_data_frame / make_lich_segment / send_audio_frame / output_bitstream, written as the code is written (shift-register encoder, "
                   "int8 0/1 arrays, int8 interleaver and xor randomizer, MSB-first packing), produces exactly Spec.Tx.lsfFrame / streamFrame "
                   "(sendLsf_eq_spec, streamFrame_eq_spec: every callsign pair over the alphabet, CAN 0..15, LICH index 0..5, every frame number "
-                  "and payload), hence by C01F every such frame decodes bit-exact (m17mod_lsf_decodes, m17mod_stream_decodes); shaping block after block through one FIR object equals one continuous run over the concatenated "
+                  "and payload), hence by C01F every such frame decodes bit-exact (m17mod_lsf_decodes, m17mod_stream_decodes); bertFrame_eq_spec: make_bert_frame + the BERT "
+                  "loop emit Spec.Tx.bertFrame of the 197 generator bits (so C18B.bert_end_to_end applies to m17-mod's BERT transmission); shaping block after block through one FIR object equals one continuous run over the concatenated "
                   "symbol stream (from C19). The per-frame encoders are compositions of the functions proved in C04/C09/C10/C11 (and round-trip "
                   "in C01); that m17-mod's bytes equal those of the independent specification encoder (Lean M17.Spec.Tx, also python) is NOT one "
                   "Lean theorem: it is checked byte-for-byte on every run at function level (send_lsf, make_lich_segment, make_data_frame, "
@@ -106,6 +107,9 @@ class C13(Prop):
         # ---------------- BERT frames, preamble, EOT ----------------
         st = rng.randrange(1, 512)
         a = ctx.run_impl(exe, [f"mod_bert {st} 3", "mod_preamble 1 0", "mod_eot 1 0"], "m17mod")
+        if ctx.model_ok:
+            bl = [f"mod_bert {s0} {nf}" for s0, nf in ((st, 3), (1, 30), (rng.randrange(1, 512), 7))]
+            ctx.compare("txmod", bl, ctx.run_impl(exe, bl, "m17mod"), ctx.run_model(bl), oracle=lambda ln, x: None, sig=lambda ln: "mod_bert")
         bits, g = S.prbs9(197 * 3, st)
         want = []
         for k in range(3):
